@@ -31,27 +31,27 @@ type mkey struct {
 	Sym bool   `json:"sym,omitempty"`
 }
 
-func vNil() val          { return val{K: "nil"} }
-func vBool(b bool) val   { return val{K: map[bool]string{true: "true", false: "false"}[b]} }
-func vInt(i int64) val   { return val{K: "int", I: i} }
+func vNil() val            { return val{K: "nil"} }
+func vBool(b bool) val     { return val{K: map[bool]string{true: "true", false: "false"}[b]} }
+func vInt(i int64) val     { return val{K: "int", I: i} }
 func vFloat(f float64) val { return val{K: "float", F: strconv.FormatUint(math.Float64bits(f), 16)} }
-func vStr(s string) val  { return val{K: "str", S: hex.EncodeToString([]byte(s))} }
-func vVec(e ...val) val  { return val{K: "vec", E: e} }
+func vStr(s string) val    { return val{K: "str", S: hex.EncodeToString([]byte(s))} }
+func vVec(e ...val) val    { return val{K: "vec", E: e} }
 func vList(e ...val) val {
 	if len(e) == 0 {
 		return vNil()
 	}
 	return val{K: "list", E: e}
 }
-func keyStr(s string) mkey { return mkey{S: hex.EncodeToString([]byte(s))} }
-func keySym(s string) mkey { return mkey{S: hex.EncodeToString([]byte(s)), Sym: true} }
+func keyStr(s string) mkey             { return mkey{S: hex.EncodeToString([]byte(s))} }
+func keySym(s string) mkey             { return mkey{S: hex.EncodeToString([]byte(s)), Sym: true} }
 func vMap(keys []mkey, vals []val) val { return val{K: "map", M: keys, E: vals} }
 
 func (v val) float() float64 {
 	u, _ := strconv.ParseUint(v.F, 16, 64)
 	return math.Float64frombits(u)
 }
-func (v val) str() []byte { b, _ := hex.DecodeString(v.S); return b }
+func (v val) str() []byte   { b, _ := hex.DecodeString(v.S); return b }
 func (k mkey) name() []byte { b, _ := hex.DecodeString(k.S); return b }
 
 // render is a readable rendering for reports (clipped at ~400 bytes).
